@@ -6,6 +6,7 @@ computation-preserving ways (C02) and compares keys, paths and side files (C12),
 distinct values sharing one (C03)."""
 import hashlib
 import json
+import re
 import os
 import random
 import shutil
@@ -21,8 +22,11 @@ MODULE = 'vgen.keys'
 
 # --------------------------------------------------------------------------- value menus
 LIT = {'None': None, 'True': True, 'False': False}
+# TLC reads ASCII only: characters outside it are spelled <U+XXXX> in the specification's constants and replaced by the
+# real characters when the cases come back (dealias).  Pairs that unicode normalisation / case folding would conflate.
 ATOM_STRINGS = ['', 'a', 'b', '1', 'None', 'True', "a', 'b", "'", "a###b='c", 'x$$$y', '[1]', 'a"b', 'a\\b', '{A}',
-                'long' * 300 + 'A', 'long' * 300 + 'B']
+                'long' * 300 + 'A', 'long' * 300 + 'B',
+                'm<U+00B2>', 'm2', '<U+FB01>', 'fi', '<U+00E9>', 'e<U+0301>', 'A', 'a ']
 ATOM_INTS = [0, 1, -1, 10]
 ATOM_FLOATS = ['1.0', '0.5', '-0.0', '1e+16', '0.0001234567', '0.0001234568', '0.9999995', '0.9999999']
 SMALL = [('lit', 'None'), ('int', 1), ('str', 'a'), ('str', "a', 'b"), ('str', 'b')]
@@ -114,6 +118,20 @@ def constants(depth):
         'Vals': '<<' + ',\n  '.join(rec_tla(v) for v in vals) + '>>',
         'QuoteKeys': '{' + ', '.join(tla_str(k) for k in QUOTE_KEYS) + '}',
     }, len(vals)
+
+
+_ALIAS = re.compile(r'<U\+([0-9A-F]{4})>')
+
+
+def dealias(v):
+    """every string of a structure returned by TLC: <U+XXXX> -> the character"""
+    if isinstance(v, str):
+        return _ALIAS.sub(lambda m: chr(int(m.group(1), 16)), v)
+    if isinstance(v, list):
+        return [dealias(e) for e in v]
+    if isinstance(v, dict):
+        return {dealias(k): dealias(e) for k, e in v.items()}
+    return v
 
 
 def to_py(x):
@@ -441,7 +459,7 @@ def enumerate_cases(ctx, depth):
     res = run_tlc('MCKeys', cfg_text=cfg, extra_files={'MCKeys.tla': text}, workers=8, timeout=3000, heap='8g')
     account(ctx, res, f'KeyScheme: parameter values of depth <= {depth} x (y, z) variations; IgnoredAbsent, '
                       f'DefaultAbsent, ChainHash on every case')
-    cases = res.by_tag('K')
+    cases = [dealias(c) for c in res.by_tag('K')]
     if not cases:
         raise MachineryError('KeyScheme produced no cases')
     return cases
